@@ -355,3 +355,33 @@ func ScopeVariant(der []byte, eku int, policies [][]int, mail int) ([]byte, bool
 	}
 	return v.DER(), true
 }
+
+// LyingNest builds an opaque value of total bytes in which lengths lie a little at every level: depth nested
+// constructed elements, each with a long-form length of lenOctets octets that claims slack bytes more than its
+// parent really has left, and an innermost primitive whose claimed length ends past bytes beyond the true end of
+// the value. A reader that validates each length against its parent with a tolerance of a few bytes - or against
+// the capacity of a slice that aliases the whole certificate - walks out of the value, and with enough levels out
+// of the extension, into whatever follows it.
+func LyingNest(total, depth, lenOctets, slack, past int) []byte {
+	if lenOctets < 1 {
+		lenOctets = 1
+	}
+	hdr := 2 + lenOctets
+	out := make([]byte, 0, total)
+	put := func(tag byte, claimed int) {
+		out = append(out, tag, 0x80|byte(lenOctets))
+		for i := lenOctets - 1; i >= 0; i-- {
+			out = append(out, byte(claimed>>(8*uint(i))))
+		}
+	}
+	claimed := total // what the enclosing window claims to hold
+	for d := 0; d < depth && len(out)+2*hdr < total; d++ {
+		claimed = claimed - hdr + slack
+		put(0x30, claimed)
+	}
+	put(0x04, total-len(out)-hdr+past)
+	for len(out) < total {
+		out = append(out, 0x41)
+	}
+	return out
+}
